@@ -49,6 +49,7 @@ fn main() {
         "c02power" => props::power_ds::run(&cfg),
         "c02actor" => props::sectors_actor::run(&cfg),
         "c06" | "c07" | "c08" => props::market::run(&cfg, prop.as_str()),
+        "c17" => props::c17::run(&cfg),
         _ => { eprintln!("unknown property {}", prop); std::process::exit(2); }
     };
     if let Some(dir) = std::path::Path::new(&cfg.out).parent() {
